@@ -5,8 +5,9 @@ import LenaModel.Model.C07
 a dictionary is the array of its slots over the case's sorted key alphabet, `null` = key absent.
 Requests (`n` = size of the alphabet, `falsy` = leaf classes that are false in boolean context):
   {"op":"pair","n":n,"a":D,"b":D,"levels":[..],"falsy":[..]}
-      -> {"r":[{"iab":D,"iba":D,"dab":D,"dspec":D,"rec":D,"cab":b,"cba":b,"ciab_a":b,"ciab_b":b}, … per level],"upd":D}
-  {"op":"inter","n":n,"level":l,"ds":[V,..]}       -> {"r":D} | {"e":"LenaTypeError"}
+      -> {"r":[{"iab":D,"iba":D,"dab":D,"dspec":D,"rec":D,"cab":b,"cba":b,"ciab_a":b,"ciab_b":b}, … per level],"upd":D,"da":depthL a}
+  {"op":"inter","n":n,"level":l,"ds":[V,..],"falsy":[..]} -> {"r":D,"recs":[D,..]} | {"e":"LenaTypeError"}
+      (recs: for every dictionary argument d, updL r (difference level d r))
   {"op":"diffv","level":l,"a":V,"b":V,"falsy":[..]} -> {"r":V}
   {"op":"update","d":V,"other":V}                  -> {"r":D} | {"e":"LenaTypeError"}
   {"op":"nested","k":k,"d":D,"other":D}            -> {"r":D,"depth":m} | {"e":"Other:TypeError","depth":m}
@@ -75,13 +76,20 @@ def handle (j : Json) : Json :=
     match nat? (getD j "n"), toDict (getD j "a"), toDict (getD j "b"), intList? (getD j "levels") with
     | some n, some a, some b, some lvs =>
       if wfB n (.dict a) && wfB n (.dict b) then
-        Json.mkObj [("r", Json.arr (lvs.map (pairAt (truthyOf j) n a b)).toArray), ("upd", ofDict (updL a b))]
+        Json.mkObj [("r", Json.arr (lvs.map (pairAt (truthyOf j) n a b)).toArray), ("upd", ofDict (updL a b)),
+                    ("da", ofNat (depthL a))]
       else err "pair: not well-formed"
     | _, _, _, _ => err "bad pair args"
   | some "inter" =>
     match nat? (getD j "n"), int? (getD j "level"), (arr? (getD j "ds")).bind (fun a => a.toList.mapM toVal) with
     | some n, some lv, some ds =>
-      if ds.all (wfB n) then ofOut (intersection n lv ds) else err "inter: not well-formed"
+      if ds.all (wfB n) then
+        match intersection n lv ds with
+        | .ok r =>
+          let recs := ds.filterMap (fun v => (asDict v).map (fun d => ofDict (updL r (difference (truthyOf j) lv d r))))
+          Json.mkObj [("r", ofDict r), ("recs", Json.arr recs.toArray)]
+        | o => ofOut o
+      else err "inter: not well-formed"
     | _, _, _ => err "bad inter args"
   | some "diffv" =>
     match int? (getD j "level"), toVal (getD j "a"), toVal (getD j "b") with
